@@ -822,20 +822,25 @@ func GenerateSelectResultRowData(r *mysql.Result) error {
 }
 
 // copy from server.generateMapKey()
+// The key must be injective on value tuples: every value is written with a
+// NULL / not-NULL tag and its length, so that neither SQL NULL and the string
+// "NULL" nor ("a+", "b") and ("a", "+b") share a key.
 func generateMapKey(groupColumns []interface{}) (string, error) {
-	bk := make([]byte, 0, 8)
-	separatorBuf, err := formatValue("+")
-	if err != nil {
-		return "", err
-	}
+	bk := make([]byte, 0, 16)
 
 	for _, v := range groupColumns {
+		if v == nil {
+			bk = append(bk, 'N')
+			continue
+		}
 		b, err := formatValue(v)
 		if err != nil {
 			return "", err
 		}
+		bk = append(bk, 'V')
+		bk = strconv.AppendInt(bk, int64(len(b)), 10)
+		bk = append(bk, ':')
 		bk = append(bk, b...)
-		bk = append(bk, separatorBuf...)
 	}
 
 	return string(bk), nil
